@@ -97,9 +97,12 @@ against the real `WaveSim` / `WaveSimCuda` (kernels under `MockCuda`, random blo
 on random tables (incl. `c_locs = -1` rows), values off {0, 1}, random previous memory contents; the table hypotheses of
 the whole-array theorems (`regionsDisjointB`, `flagsOKB`, `transferRowsB`, `stateRowsCapturedB`, `capsPositiveB`) are evaluated BY THE
 DRIVER (`wio-hyp`) on the real tables and the real `s` and, where they hold, the two real arrays must be equal.
-NOT tied by a driver command: `cpuLevel`/`gpuLevel`/`cpuCProp`/`gpuCProp` on the raw arrays of a real propagation (the theorems about
-them hold for every evaluator function `ev`; their three ingredients are tied separately: `_wave_eval` in C03, the launch order in
-C07 `grid`, the accumulation `accAdd` in C13 `accum`). The kernel
+Since the second audit (finding 2) ALSO tied: a whole `c_prop` — clause `path-tie-cprop`, driver `wio-cprop` runs `cpuCProp` / `gpuCProp
+(evWave cfgSel loc)` with `accAdd` on the raw memory, `ops` (incl. the accumulation columns), `level_starts/stops`, `c_locs`, `c_caps`, all
+delay data sets and `simctl_int` of real objects of both classes (objects with a history, `c_prop(sims=k)`, mixed per-lane modes, zero /
+negative weights): the waveform every region READS AS and every accumulator of every lane are equal (cells behind a terminator are not
+compared — the real evaluator leaves popped entries there, the instance `evWave` leaves them unchanged), lanes `≥ k` untouched; the two real
+paths are compared on the same cases as an oracle (class `config-code-path-cprop`). The kernel
 launch is tied in C07 (`grid`), `_wave_eval` in C03 (gate calls and whole runs of both classes), accumulation in C13.
 Not covered by a theorem: that the shared Python function `_wave_eval` is a function of the lane's memory with footprints inside
 the regions of its op (it is the parameter `ev` of the propagation theorems; its waveform-level model `Wave.waveEval` is tied by
